@@ -66,7 +66,7 @@ def gen_meta(rng, focus=None):
         text = b'|'.join([wid.encode(), meth.encode()] + toks) + b'\r\n'
         if outcome is None:
             x = rng.random()
-            outcome = 'valid' if x < 0.65 else 'wrong' if x < 0.78 else ('raise', rng.choice(LIB_RAISE))
+            outcome = 'valid' if x < 0.65 else 'wrong' if x < 0.78 else ('raise', rng.choice(LIB_RAISE), rng.choice([0, 0, 1, 2, 5]))
         lines.append(Line(text, [sym('req'), A(r), B(wf), B(known)], r, meth, q, outcome if (wf and known) else 'valid', 'req'))
 
     shape = rng.random() if focus is None else {'normal': 0.0, 'early': 0.75, 'noinit': 0.93}.get(focus, 0.0)
@@ -160,7 +160,7 @@ def finish(rng, kind, lines):
     end = rng.choice(['block'] * 6 + ['eof', 'error'])
     if end != 'block' and chunks and rng.random() < 0.5:
         chunks = chunks[:rng.randint(0, len(chunks))]
-    handler = rng.choice([None, None, (False, False), (True, True), (True, False), (False, True)])
+    handler = rng.choice([None, None, (False, False), (True, True), (True, False), (False, True), (None, None), (None, True), (False, None)])
     pool = rng.choice([None, -3, 0, 1, 1, 2, 2, 3])
     fail_send = rng.choice([None] * 7 + [1, 2, 3])
     sc = ShellScenario(kind, lines, chunks, pool=pool, cpu=3, handler=handler, end=end, fail_send=fail_send,
@@ -178,6 +178,16 @@ def finish(rng, kind, lines):
         if has_init and len(reqs) >= 2 and not closes:
             a, b = reqs[0], reqs[-1]
             if a is not b and a.outcome != 'wrong' and b.outcome == 'valid' and a.outcome == 'valid':
+                sc.gate = (a.rid, b.rid)
+    if kind == 'data' and sc.nworkers() >= 2 and end == 'block' and fail_send is None and not sc.app_close and rng.random() < 0.4:
+        ok_init = lines and lines[0].kind == 'init' and lines[0].klass[2] == b'T' and lines[0].klass[3] != b'T' and sc.init_outcome == 'ret'
+        subs = [l for l in lines if l.kind == 'req' and l.method == 'SUB' and l.klass[2] == b'T' and l.klass[3] == b'T']
+        if ok_init and not any(l.kind in ('close',) for l in lines) and sum(1 for l in lines if l.kind == 'init') == 1:
+            first = {}
+            for l in subs:
+                first.setdefault(l.q[1], l)
+            if len(first) >= 2:
+                a, b = sorted(first.values(), key=lambda l: l.rid)[:2]
                 sc.gate = (a.rid, b.rid)
     return sc
 
@@ -263,6 +273,8 @@ def compare_digests(ctx, digs):
                             idx, sx.dumps(list(labs[idx])), sx.dumps([list(x) for x in labs[max(0, idx - 3):idx]]),
                             sx.dumps(m[2][2]), sx.dumps(m[2][3]), sx.dumps(m[2][4])), 'impl': 'performed it'})
         else:
+            if m[2]:
+                dis.append({'case': case, 'relation': 'invariants / monitors of Model/ShellSpec.v hold along the trace', 'model': 'failing %s' % sx.dumps(m[2]), 'impl': None})
             s = m[1]
             f = d['final']
             got = {'outq': d['outq'], 'written': d['written'], 'init_expected': A(bool(f['init_expected'])), 'close_expected': A(bool(f['close_expected'])),
